@@ -194,7 +194,8 @@ Definition ser_mmember1 (mfs : MF) (d : dyn) (id : Z) (pos : Z) : res W :=
                    | Some _ => unwrap (ser_value mfs d id 0)
                    | None => Ok ([], 0)
                    end ;;
-    Ok (pad ++ bpid ++ int_enc E 2 (wrap_u16 (blen body)) ++ body, p3)
+    (* POP(ORIGIN): writer.position += outer_position (the position after the placeholder) *)
+    Ok (pad ++ bpid ++ int_enc E 2 (wrap_u16 (blen body)) ++ body, pos + blen pad + 4 + p3)
   end.
 
 (* Rule (22): XCDR2 MMEMBER with EMHEADER1 / NEXTINT *)
@@ -401,23 +402,27 @@ Notation "x @ p <~ r ;; k" := (dbind r (fun x p => k))
 Notation "' x @ p <~ r ;; k" := (dbind r (fun x p => k))
   (at level 61, x pattern, p name, r at next level, right associativity).
 
+(* Reader state besides the position: the alignment origin (Reader.origin) and the effective
+   length of Reader.buffer (the buffer is narrowed to an appendable object while it is decoded) *)
+Record rctx : Type := mkC { c_org : Z; c_lim : Z }.
+
 Section Decoder.
 Variable V : ver.
 Variable E : endian.
 Variable buf : list Z.
 
-Definition seek (pos n : Z) : dres unit :=
-  if pos + n >? blen buf then DErr E_NED pos else DOk tt (pos + n).
-Definition read_bytes (pos n : Z) : dres (list Z) :=
-  if pos + n >? blen buf then DErr E_NED pos
+Definition seek (c : rctx) (pos n : Z) : dres unit :=
+  if pos + n >? c_lim c then DErr E_NED pos else DOk tt (pos + n).
+Definition read_bytes (c : rctx) (pos n : Z) : dres (list Z) :=
+  if pos + n >? c_lim c then DErr E_NED pos
   else DOk (firstn (Z.to_nat n) (skipn (Z.to_nat pos) buf)) (pos + n).
-(* V::align on the Reader: seek_padding(min(alignment, MAXALIGN)): 8 for XCDR1, 4 for XCDR2 *)
-Definition dec_align (a pos : Z) : dres unit :=
-  seek pos (padlen pos (match V with V1 => Z.min a 8 | V2 => Z.min a 4 end)).
+(* V::align on the Reader: seek_padding(min(alignment, MAXALIGN)) counted from Reader.origin *)
+Definition dec_align (c : rctx) (a pos : Z) : dres unit :=
+  seek c pos (padlen (pos - c_org c) (match V with V1 => Z.min a 8 | V2 => Z.min a 4 end)).
 
-Definition des_prim (k : sk) (pos : Z) : dres Z :=
-  _ @ p <~ dec_align (sk_size k) pos ;;
-  bs @ p' <~ read_bytes p (sk_size k) ;;
+Definition des_prim (c : rctx) (k : sk) (pos : Z) : dres Z :=
+  _ @ p <~ dec_align c (sk_size k) pos ;;
+  bs @ p' <~ read_bytes c p (sk_size k) ;;
   match k with
   | KBool => match bs with
              | [b] => if b =? 0 then DOk 0 p' else if b =? 1 then DOk 1 p' else DErr E_DATA p'
@@ -445,129 +450,138 @@ Fixpoint des_pos {A} (f : Z -> dres A) (p : positive) (pos : Z) : dres (list A) 
 Definition des_z {A} (f : Z -> dres A) (n : Z) (pos : Z) : dres (list A) :=
   match n with Zpos p => des_pos f p pos | _ => DOk [] pos end.
 
-Definition des_string (pos : Z) : dres (list Z) :=
-  len @ p1 <~ des_prim KU32 pos ;;
-  bs @ p2 <~ read_bytes p1 (Z.max 0 (len - 1)) ;;
-  _ @ p3 <~ read_bytes p2 1 ;;
+(* `length > buffer.len().saturating_sub(pos)` *)
+Definition too_long (c : rctx) (n pos : Z) : bool := n >? Z.max 0 (c_lim c - pos).
+
+Definition des_string (c : rctx) (pos : Z) : dres (list Z) :=
+  len @ p1 <~ des_prim c KU32 pos ;;
+  bs @ p2 <~ read_bytes c p1 (Z.max 0 (len - 1)) ;;
+  _ @ p3 <~ read_bytes c p2 1 ;;
   match utf8_dec bs with Some s => DOk s p3 | None => DErr E_DATA p3 end.
-Definition des_wstring (pos : Z) : dres (list Z) :=
-  len @ p1 <~ des_prim KU32 pos ;;
+Definition des_wstring (c : rctx) (pos : Z) : dres (list Z) :=
+  len @ p1 <~ des_prim c KU32 pos ;;
   if len =? 0 then DOk [] p1 else
-  us @ p2 <~ des_z (des_prim KU16) (len - 1) p1 ;;
-  nul @ p3 <~ des_prim KU16 p2 ;;
+  if too_long c (len - 1) p1 then DErr E_NED p1 else
+  us @ p2 <~ des_z (des_prim c KU16) (len - 1) p1 ;;
+  nul @ p3 <~ des_prim c KU16 p2 ;;
   if negb (nul =? 0) then DErr E_DATA p3 else
   match utf16_dec us with Some s => DOk s p3 | None => DErr E_DATA p3 end.
 
 (* Rule (5) with the label check *)
-Definition des_enum (h : prim) (labels : list Z) (pos : Z) : dres dyn :=
+Definition des_enum (c : rctx) (h : prim) (labels : list Z) (pos : Z) : dres dyn :=
   match (match h with PI8 => Some KI8 | PI16 => Some KI16 | PI32 => Some KI32 | _ => None end) with
   | None => DPanic P_TODO
   | Some k =>
-    z @ p <~ des_prim k pos ;;
+    z @ p <~ des_prim c k pos ;;
     if match labels with [] => true | _ => existsb (Z.eqb z) labels end
     then DOk [(0, VP k z)] p else DErr E_DATA p
   end.
 
-(* `let _dheader = deserialize_primitive_type::<u32>();` without `?` *)
-Definition des_u32_ignore (pos : Z) : Z :=
-  match des_prim KU32 pos with DOk _ p => p | DErr _ p => p | DPanic _ => pos end.
+(* `let _dheader = deserialize_primitive_type::<u32>();` without `?` (mutable union, XCDR2) *)
+Definition des_u32_ignore (c : rctx) (pos : Z) : Z :=
+  match des_prim c KU32 pos with DOk _ p => p | DErr _ p => p | DPanic _ => pos end.
 
-Definition G : Type := Z -> dres val.
+Definition G : Type := rctx -> Z -> dres val.
 Definition MG : Type := list (minfo * (ty * G)).
 Definition MEM : Type := (minfo * (ty * G))%type.
 
 (* set_*_value(member.get_id(), ...) after deserializing the value *)
-Definition des_value (mb : MEM) (d : dyn) (pos : Z) : dres dyn :=
-  v @ p <~ snd (snd mb) pos ;; DOk (insert (m_id (fst mb)) v d) p.
+Definition des_value (mb : MEM) (d : dyn) (c : rctx) (pos : Z) : dres dyn :=
+  v @ p <~ snd (snd mb) c pos ;; DOk (insert (m_id (fst mb)) v d) p.
 
-(* EncodingVersion1::seek_to_pid *)
-Fixpoint seek_to_pid1 (fuel : nat) (pid : Z) (pos : Z) : dres Z :=
+(* EncodingVersion1::seek_to_pid (pid : u32, compared with the 14-bit id of the header) *)
+Fixpoint seek_to_pid1 (c : rctx) (fuel : nat) (pid : Z) (pos : Z) : dres Z :=
   match fuel with
   | O => DPanic P_FUEL
   | S f =>
-    cur @ p1 <~ des_prim KU16 pos ;;
+    cur @ p1 <~ des_prim c KU16 pos ;;
     let cur' := Z.land cur 16383 in
-    len @ p2 <~ des_prim KU16 p1 ;;
+    len @ p2 <~ des_prim c KU16 p1 ;;
     if (cur' =? 1) && (len =? 0) then (if pid =? 1 then DOk 0 p2 else DErr E_PID p2)
     else if cur' =? pid then DOk len p2
-    else _ @ p3 <~ seek p2 len ;; _ @ p4 <~ dec_align 4 p3 ;; seek_to_pid1 f pid p4
+    else _ @ p3 <~ seek c p2 len ;; _ @ p4 <~ dec_align c 4 p3 ;; seek_to_pid1 c f pid p4
   end.
-(* EncodingVersion2::seek_to_pid *)
-Fixpoint seek_to_pid2 (fuel : nat) (pid : Z) (pos : Z) : dres Z :=
+(* EncodingVersion2::seek_to_pid (28-bit member ids) *)
+Fixpoint seek_to_pid2 (c : rctx) (fuel : nat) (pid : Z) (pos : Z) : dres Z :=
   match fuel with
   | O => DPanic P_FUEL
   | S f =>
-    emh @ p1 <~ des_prim KU32 pos ;;
-    let cur := wrap_u16 (Z.land emh 268435455) in
+    emh @ p1 <~ des_prim c KU32 pos ;;
+    let cur := Z.land emh 268435455 in
     let lc := Z.land (emh / 268435456) 7 in
     len @ p2 <~ (if lc =? 0 then DOk 1 p1 else if lc =? 1 then DOk 2 p1
                  else if lc =? 2 then DOk 4 p1 else if lc =? 3 then DOk 8 p1
-                 else x @ p <~ des_prim KU32 p1 ;;
+                 else x @ p <~ des_prim c KU32 p1 ;;
                       let m := if lc =? 6 then 4 else if lc =? 7 then 8 else 1 in
-                      if m * x >? u32_max then DPanic P_TODO else DOk (m * x) p) ;;
+                      if m * x >? u32_max then DErr E_DATA p else DOk (m * x) p) ;;
     if cur =? pid then DOk (wrap_u16 len) (if lc =? 5 then p2 - 4 else p2)
-    else _ @ p3 <~ seek p2 len ;; _ @ p4 <~ dec_align 4 p3 ;; seek_to_pid2 f pid p4
+    else _ @ p3 <~ seek c p2 len ;; _ @ p4 <~ dec_align c 4 p3 ;; seek_to_pid2 c f pid p4
   end.
 Definition fuel0 : nat := S (length buf).
 
-(* Rule (24) reader side: reader.pos is restored to the position before the search *)
-Definition des_mmember1 (mb : MEM) (d : dyn) (pos : Z) : dres dyn :=
-  _ @ p0 <~ dec_align 4 pos ;;
-  match seek_to_pid1 fuel0 (wrap_u16 (m_id (fst mb))) p0 with
+(* Rule (24) reader side (members of MUTABLE types): reader.pos is restored afterwards *)
+Definition des_mmember1 (mb : MEM) (d : dyn) (c : rctx) (pos : Z) : dres dyn :=
+  _ @ p0 <~ dec_align c 4 pos ;;
+  match seek_to_pid1 c fuel0 (m_id (fst mb)) p0 with
   | DOk len p1 =>
     if len >? 0 then
-      match des_value mb d p1 with
-      | DOk d' _ => DOk d' p0 | DErr c _ => DErr c p0 | DPanic s => DPanic s
+      match des_value mb d c p1 with
+      | DOk d' _ => DOk d' p0 | DErr code _ => DErr code p0 | DPanic s => DPanic s
       end
     else DOk d p0
   | DErr _ _ => DOk d p0
   | DPanic s => DPanic s
   end.
 (* Rule (22) reader side *)
-Definition des_mmember2 (mb : MEM) (d : dyn) (pos : Z) : dres dyn :=
-  _ @ p0 <~ dec_align 4 pos ;;
-  match seek_to_pid2 fuel0 (wrap_u16 (m_id (fst mb))) p0 with
+Definition des_mmember2 (mb : MEM) (d : dyn) (c : rctx) (pos : Z) : dres dyn :=
+  _ @ p0 <~ dec_align c 4 pos ;;
+  match seek_to_pid2 c fuel0 (Z.land (m_id (fst mb)) 268435455) p0 with
   | DOk _ p1 =>
-    match des_value mb d p1 with
-    | DOk d' _ => DOk d' p0 | DErr c _ => DErr c p0 | DPanic s => DPanic s
+    match des_value mb d c p1 with
+    | DOk d' _ => DOk d' p0 | DErr code _ => DErr code p0 | DPanic s => DPanic s
     end
   | DErr _ _ => DOk d p0
   | DPanic s => DPanic s
   end.
-Definition des_mmember (mb : MEM) (d : dyn) (pos : Z) : dres dyn :=
-  match V with V1 => des_mmember1 mb d pos | V2 => des_mmember2 mb d pos end.
+Definition des_mmember (mb : MEM) (d : dyn) (c : rctx) (pos : Z) : dres dyn :=
+  match V with V1 => des_mmember1 mb d c pos | V2 => des_mmember2 mb d c pos end.
 
-(* Rules (19) / (20) reader side *)
-Definition des_opt_fmember (mb : MEM) (d : dyn) (pos : Z) : dres dyn :=
+(* Rules (19) / (20) reader side.  XCDR1: the parameter is read IN PLACE (header, then the value
+   aligned from a fresh origin), the reader continues after the value *)
+Definition des_opt_fmember (mb : MEM) (d : dyn) (c : rctx) (pos : Z) : dres dyn :=
   match V with
-  | V1 => des_mmember1 mb d pos
-  | V2 => b @ p <~ des_prim KBool pos ;; if b =? 1 then des_value mb d p else DOk d p
+  | V1 =>
+    _ @ p0 <~ dec_align c 4 pos ;;
+    _ @ p1 <~ des_prim c KU16 p0 ;;
+    len @ p2 <~ des_prim c KU16 p1 ;;
+    if len >? 0 then des_value mb d (mkC p2 (c_lim c)) p2 else DOk d p2
+  | V2 => b @ p <~ des_prim c KBool pos ;; if b =? 1 then des_value mb d c p else DOk d p
   end.
-Definition des_fmember (mb : MEM) (d : dyn) (pos : Z) : dres dyn :=
-  if m_opt (fst mb) then des_opt_fmember mb d pos else des_value mb d pos.
+Definition des_fmember (mb : MEM) (d : dyn) (c : rctx) (pos : Z) : dres dyn :=
+  if m_opt (fst mb) then des_opt_fmember mb d c pos else des_value mb d c pos.
 
 (* Rule (17) reader side; `app`: NotEnoughData ends an appendable structure early *)
-Fixpoint des_fstruct (app : bool) (mgs : MG) (d : dyn) (pos : Z) : dres dyn :=
+Fixpoint des_fstruct (app : bool) (mgs : MG) (d : dyn) (c : rctx) (pos : Z) : dres dyn :=
   match mgs with
   | [] => DOk d pos
   | mb :: r =>
-    match des_fmember mb d pos with
-    | DOk d' p' => des_fstruct app r d' p'
-    | DErr c p' => if app && (c =? E_NED) then DOk d p' else DErr c p'
+    match des_fmember mb d c pos with
+    | DOk d' p' => des_fstruct app r d' c p'
+    | DErr code p' => if app && (code =? E_NED) then DOk d p' else DErr code p'
     | DPanic s => DPanic s
     end
   end.
 (* { O.member[i] : MMEMBER }* *)
-Fixpoint des_members (mgs : MG) (d : dyn) (pos : Z) : dres dyn :=
+Fixpoint des_members (mgs : MG) (d : dyn) (c : rctx) (pos : Z) : dres dyn :=
   match mgs with
   | [] => DOk d pos
-  | mb :: r => d' @ p' <~ des_mmember mb d pos ;; des_members r d' p'
+  | mb :: r => d' @ p' <~ des_mmember mb d c pos ;; des_members r d' c p'
   end.
-Definition des_mstruct (mgs : MG) (pos : Z) : dres dyn :=
+Definition des_mstruct (mgs : MG) (c : rctx) (pos : Z) : dres dyn :=
   match V with
-  | V1 => d @ p <~ des_members mgs [] pos ;;
-          _ @ p' <~ seek_to_pid1 fuel0 1 p ;; DOk d p'
-  | V2 => _ @ p <~ des_prim KU32 pos ;; des_members mgs [] p
+  | V1 => d @ p <~ des_members mgs [] c pos ;;
+          _ @ p' <~ seek_to_pid1 c fuel0 1 p ;; DOk d p'
+  | V2 => _ @ p <~ des_prim c KU32 pos ;; des_members mgs [] c p
   end.
 
 (* get_discriminator_id_as_i32 *)
@@ -597,75 +611,91 @@ Definition with_disc (d1 : dyn) (p1 : Z) (mgs : MG) (k : MEM -> dres dyn) : dres
     | Some mb => k mb
     | None => DErr E_DATA p1
     end
-  | Err c => DErr c p1
+  | Err code => DErr code p1
   | Panic s => DPanic s
   end.
 
 (* Rule (26) reader side; mgs = discriminator member :: cases *)
-Definition des_funion (mgs : MG) (pos : Z) : dres dyn :=
+Definition des_funion (mgs : MG) (c : rctx) (pos : Z) : dres dyn :=
   match mgs with
   | [] => DErr E_IDX pos
   | dm :: _ =>
-    d1 @ p1 <~ des_value dm [] pos ;;
-    with_disc d1 p1 mgs (fun mb => des_fmember mb d1 p1)
+    d1 @ p1 <~ des_value dm [] c pos ;;
+    with_disc d1 p1 mgs (fun mb => des_fmember mb d1 c p1)
   end.
 (* Rules (27) / (28) reader side *)
-Definition des_munion (mgs : MG) (pos : Z) : dres dyn :=
-  let p := match V with V1 => pos | V2 => des_u32_ignore pos end in
+Definition des_munion (mgs : MG) (c : rctx) (pos : Z) : dres dyn :=
+  let p := match V with V1 => pos | V2 => des_u32_ignore c pos end in
   match mgs with
   | [] => DErr E_IDX p
   | dm :: _ =>
-    d1 @ p1 <~ des_mmember dm [] p ;;
-    with_disc d1 p1 mgs (fun mb => des_mmember mb d1 p1)
+    d1 @ p1 <~ des_mmember dm [] c p ;;
+    with_disc d1 p1 mgs (fun mb => des_mmember mb d1 c p1)
   end.
 
-Definition des_struct_nested (x : ext) (mgs : MG) (pos : Z) : dres dyn :=
+(* Rule (30) reader side: the DHEADER delimits the object; Reader.buffer is narrowed to it while
+   its members are read and the position is set to its end afterwards *)
+Definition des_appendable2 (mgs : MG) (c : rctx) (pos : Z) : dres dyn :=
+  dh @ p <~ des_prim c KU32 pos ;;
+  let e := p + dh in
+  if e >? c_lim c then DErr E_NED p else
+  match des_fstruct true mgs [] (mkC (c_org c) e) p with
+  | DOk d _ => DOk d e
+  | DErr code p' => DErr code p'
+  | DPanic s => DPanic s
+  end.
+
+Definition des_struct_nested (x : ext) (mgs : MG) (c : rctx) (pos : Z) : dres dyn :=
   match x with
-  | Final => des_fstruct false mgs [] pos
+  | Final => des_fstruct false mgs [] c pos
   | Appendable =>
     match V with
-    | V1 => des_fstruct true mgs [] pos
-    | V2 => des_fstruct true mgs [] (des_u32_ignore pos)
+    | V1 => des_fstruct true mgs [] c pos
+    | V2 => des_appendable2 mgs c pos
     end
-  | Mutable => des_mstruct mgs pos
+  | Mutable => des_mstruct mgs c pos
   end.
 (* deserialize_as_nested, UNION arm: an appendable union reads a DHEADER in BOTH versions *)
-Definition des_union_nested (x : ext) (mgs : MG) (pos : Z) : dres dyn :=
+Definition des_union_nested (x : ext) (mgs : MG) (c : rctx) (pos : Z) : dres dyn :=
   match x with
-  | Final => des_funion mgs pos
-  | Appendable => _ @ p <~ des_prim KU32 pos ;; des_funion mgs p
-  | Mutable => des_munion mgs pos
+  | Final => des_funion mgs c pos
+  | Appendable => _ @ p <~ des_prim c KU32 pos ;; des_funion mgs c p
+  | Mutable => des_munion mgs c pos
   end.
 
 Definition undata (r : dres val) : dres dyn :=
   v @ p <~ r ;; match v with VData d => DOk d p | _ => DErr E_TYPE p end.
 
+(* structures without members are exempt from the length-versus-bytes guard *)
+Definition is_empty_struct (e : ty) : bool := match e with TStruct _ [] => true | _ => false end.
+
 (* deserialize_sequence_elements *)
-Definition des_elements (e : ty) (ge : G) (n : Z) (pos : Z) : dres val :=
+Definition des_elements (e : ty) (ge : G) (n : Z) (c : rctx) (pos : Z) : dres val :=
+  if negb (is_empty_struct e) && too_long c n pos then DErr E_NED pos else
   match e with
   | TPrim p =>
     match p with
-    | PByte | PU8 => bs @ p' <~ read_bytes pos n ;; DOk (VSeqP KU8 bs) p'
-    | _ => l @ p' <~ des_z (des_prim (prim_sk p)) n pos ;; DOk (VSeqP (prim_sk p) l) p'
+    | PByte | PU8 => bs @ p' <~ read_bytes c pos n ;; DOk (VSeqP KU8 bs) p'
+    | _ => l @ p' <~ des_z (des_prim c (prim_sk p)) n pos ;; DOk (VSeqP (prim_sk p) l) p'
     end
-  | TStr => l @ p' <~ des_z des_string n pos ;; DOk (VSeqStr l) p'
-  | TWStr => l @ p' <~ des_z des_wstring n pos ;; DOk (VSeqStr l) p'
+  | TStr => l @ p' <~ des_z (des_string c) n pos ;; DOk (VSeqStr l) p'
+  | TWStr => l @ p' <~ des_z (des_wstring c) n pos ;; DOk (VSeqStr l) p'
   | TEnum _ _ | TStruct _ _ | TUnion _ _ _ =>
-    l @ p' <~ des_z (fun p => undata (ge p)) n pos ;; DOk (VSeqData l) p'
+    l @ p' <~ des_z (fun p => undata (ge c p)) n pos ;; DOk (VSeqData l) p'
   | TSeq _ | TArr _ _ => DPanic P_TODO
   end.
-Definition des_sequence (e : ty) (ge : G) (pos : Z) : dres val :=
-  if is_prim_ty e then len @ p <~ des_prim KU32 pos ;; des_elements e ge len p
+Definition des_sequence (e : ty) (ge : G) (c : rctx) (pos : Z) : dres val :=
+  if is_prim_ty e then len @ p <~ des_prim c KU32 pos ;; des_elements e ge len c p
   else match V with
-       | V1 => len @ p <~ des_prim KU32 pos ;; des_elements e ge len p
-       | V2 => _ @ p0 <~ des_prim KU32 pos ;;
-               len @ p <~ des_prim KU32 p0 ;; des_elements e ge len p
+       | V1 => len @ p <~ des_prim c KU32 pos ;; des_elements e ge len c p
+       | V2 => _ @ p0 <~ des_prim c KU32 pos ;;
+               len @ p <~ des_prim c KU32 p0 ;; des_elements e ge len c p
        end.
-Definition des_array (n : Z) (e : ty) (ge : G) (pos : Z) : dres val :=
-  if is_prim_ty e then des_elements e ge n pos
+Definition des_array (n : Z) (e : ty) (ge : G) (c : rctx) (pos : Z) : dres val :=
+  if is_prim_ty e then des_elements e ge n c pos
   else match V with
-       | V1 => des_elements e ge n pos
-       | V2 => _ @ p0 <~ des_prim KU32 pos ;; des_elements e ge n p0
+       | V1 => des_elements e ge n c pos
+       | V2 => _ @ p0 <~ des_prim c KU32 pos ;; des_elements e ge n c p0
        end.
 
 Definition as_data (r : dres dyn) : dres val := d @ p <~ r ;; DOk (VData d) p.
@@ -673,57 +703,49 @@ Definition as_data (r : dres dyn) : dres val := d @ p <~ r ;; DOk (VData d) p.
 (* deserialize_value's dispatch on the member type kind; aggregated types: deserialize_as_nested *)
 Fixpoint des_ty (t : ty) {struct t} : G :=
   match t with
-  | TPrim p => fun pos => z @ p' <~ des_prim (prim_sk p) pos ;; DOk (VP (prim_sk p) z) p'
-  | TStr => fun pos => s @ p' <~ des_string pos ;; DOk (VStr s) p'
-  | TWStr => fun pos => s @ p' <~ des_wstring pos ;; DOk (VStr s) p'
-  | TEnum h ls => fun pos => as_data (des_enum h ls pos)
+  | TPrim p => fun c pos => z @ p' <~ des_prim c (prim_sk p) pos ;; DOk (VP (prim_sk p) z) p'
+  | TStr => fun c pos => s @ p' <~ des_string c pos ;; DOk (VStr s) p'
+  | TWStr => fun c pos => s @ p' <~ des_wstring c pos ;; DOk (VStr s) p'
+  | TEnum h ls => fun c pos => as_data (des_enum c h ls pos)
   | TSeq e => des_sequence e (des_ty e)
   | TArr n e => des_array n e (des_ty e)
-  | TStruct x ms => fun pos =>
+  | TStruct x ms => fun c pos =>
       as_data (des_struct_nested x
         ((fix cv (ms : list (minfo * ty)) : MG :=
-            match ms with [] => [] | (m, t') :: r => (m, (t', des_ty t')) :: cv r end) ms) pos)
-  | TUnion x disc cs => fun pos =>
+            match ms with [] => [] | (m, t') :: r => (m, (t', des_ty t')) :: cv r end) ms) c pos)
+  | TUnion x disc cs => fun c pos =>
       as_data (des_union_nested x ((disc_info, (disc, des_ty disc)) ::
         (fix cv (ms : list (minfo * ty)) : MG :=
-            match ms with [] => [] | (m, t') :: r => (m, (t', des_ty t')) :: cv r end) cs) pos)
+            match ms with [] => [] | (m, t') :: r => (m, (t', des_ty t')) :: cv r end) cs) c pos)
   end.
 
 End Decoder.
 
-(* deserialize_top_level_type *)
-Definition decode (t : ty) (bytes : list Z) : res val :=
+Definition dispatch (b0 b1 : Z) : option (ver * endian) :=
+  if b0 =? 0 then
+    if (b1 =? 0) || (b1 =? 2) then Some (V1, BE)
+    else if (b1 =? 1) || (b1 =? 3) then Some (V1, LE)
+    else if (b1 =? 6) || (b1 =? 8) || (b1 =? 10) then Some (V2, BE)
+    else if (b1 =? 7) || (b1 =? 9) || (b1 =? 11) then Some (V2, LE)
+    else None
+  else None.
+
+(* deserialize_top_level_type: origin 0, the whole body *)
+Definition des_top (t : ty) (bytes : list Z) : res (dres val) :=
   if blen bytes <? 4 then Err E_NED else
   match bytes with
   | b0 :: b1 :: _ :: _ :: body =>
-    '(v, e) <- (if b0 =? 0 then
-                  if (b1 =? 0) || (b1 =? 2) then Ok (V1, BE)
-                  else if (b1 =? 1) || (b1 =? 3) then Ok (V1, LE)
-                  else if (b1 =? 6) || (b1 =? 8) || (b1 =? 10) then Ok (V2, BE)
-                  else if (b1 =? 7) || (b1 =? 9) || (b1 =? 11) then Ok (V2, LE)
-                  else Err E_DATA
-                else Err E_DATA) ;;
-    if is_aggr t then
-      match des_ty v e body t 0 with
-      | DOk x _ => Ok x | DErr c _ => Err c | DPanic s => Panic s
-      end
-    else Err E_TYPE
+    match dispatch b0 b1 with
+    | None => Err E_DATA
+    | Some (v, e) =>
+      if is_aggr t then Ok (des_ty v e body t (mkC 0 (blen body)) 0) else Err E_TYPE
+    end
   | _ => Err E_NED
   end.
-
+Definition decode (t : ty) (bytes : list Z) : res val :=
+  r <- des_top t bytes ;;
+  match r with DOk x _ => Ok x | DErr code _ => Err code | DPanic s => Panic s end.
 (* number of bytes of the body the reader consumed (the Reader position when
    deserialize_top_level_type returns Ok), used by the padding oracle *)
 Definition decode_end (t : ty) (bytes : list Z) : option Z :=
-  match bytes with
-  | b0 :: b1 :: _ :: _ :: body =>
-    let ve := if (b1 =? 0) || (b1 =? 2) then Some (V1, BE)
-              else if (b1 =? 1) || (b1 =? 3) then Some (V1, LE)
-              else if (b1 =? 6) || (b1 =? 8) || (b1 =? 10) then Some (V2, BE)
-              else if (b1 =? 7) || (b1 =? 9) || (b1 =? 11) then Some (V2, LE)
-              else None in
-    match ve with
-    | Some (v, e) => match des_ty v e body t 0 with DOk _ p => Some p | _ => None end
-    | None => None
-    end
-  | _ => None
-  end.
+  match des_top t bytes with Ok (DOk _ p) => Some p | _ => None end.
